@@ -329,17 +329,17 @@ class Paraxial:
             z0 = np.ones_like(y1) * z
         else:
             if self.optic.field_type == 'object_height':
-                y = -field_y
+                y = field_y
                 z = obj.geometry.cs.z
 
                 y0 = np.ones_like(y1) * y
                 z0 = np.ones_like(y1) * z
 
             elif self.optic.field_type == 'angle':
-                y = -np.tan(np.radians(field_y))
                 z = self.optic.surface_group.positions[0]
+                y = -np.tan(np.radians(field_y)) * (EPL - z)
 
-                y0 = y1 + y
+                y0 = np.ones_like(y1) * y
                 z0 = np.ones_like(y1) * z
 
         return y0, z0
